@@ -291,6 +291,13 @@ def build_C01(ctx, tier, rnd):
                     for b in (acts if tier == 'thorough' else ['q', 's', 'R']):
                         hs.append(('c01%s_%d' % (tag, len(hs)), [al.init] + al.seq(pre) + al.seq([d, a, b, 'p'])))
         hs += double_damage(al, 'c01dd' + tag)
+        # a patch of ZERO bytes (recorded size 0): installed, selected, booted - and then its file or directory disappears
+        uz = op_update(ctx, 'z', num=3, signed=key is not None)
+        for pre in ((), ('u1', 's', 'ok')):
+            for mid in ((), ('s', 'ok'), ('R',)):
+                for d in ('op dmg delfile 3', 'op dmg deldir 3', 'op dmg setart 3 @ext3'):
+                    for ask in (('q', 'p'), ('p', 'q'), ('s', 'c', 'p'), ('R', 'q', 'p')):
+                        hs.append(('c01z%s_%d' % (tag, len(hs)), [al.init] + al.seq(pre) + [uz, 'op nextnum', 'op nextpath'] + al.seq(mid) + [d] + al.seq(ask)))
         depth = 3 if tier == 'quick' else 4
         small = ['q', 's', 'ok', 'fail', 'R', 'u1', 'u2', 'dT1', 'dS1', 'dPg'] if tier == 'quick' else \
             ['q', 's', 'ok', 'fail', 'R', 'u1', 'u2', 'dT1', 'dS1', 'dPg', 'dD2', 'rb1']
@@ -432,6 +439,11 @@ def build_C05(ctx, tier, rnd):
     for j, hh in enumerate(hashes):
         pre = prefixes[j % len(prefixes)]
         hs.append(('c05h%d' % j, [al.init] + al.seq(pre) + [op_update(ctx, 2, hash=hh), 'op nextnum'] + al.seq(['u2', 'q'])))
+    # hash strings that look like paths: whatever the string is used for before it is known to be hex, it must not name a file
+    for j, hh in enumerate(('../patches/1/dlc.vmcode', '../patches/2/dlc.vmcode', '../patches_state.json', '../state.json', '../patches/1', '1', '2.full',
+                            '../../storage/patches_state.json', './' + h, '/dev/null', '..', '.', 'a/b')):
+        for pk in ('good1', 'good1pend2', 'pend1', 'good1boot2'):
+            hs.append(('c05p%d_%s' % (j, pk), [al.init] + al.seq(PFX[pk]) + [op_update(ctx, 2, hash=hh), 'op nextnum', 'op nextpath'] + al.seq(['R', 'q', 'u2', 'q'])))
     return hs
 
 
@@ -463,8 +475,8 @@ def build_C06(ctx, tier, rnd):
 
 
 # ---- C06, real-transport half: the library's default callbacks (reqwest) against a scripted local server
-HC_FAIL = ['close', 'reset', 'stall', 'garbage', 's500', 's404', 's403', 's204', 'chunkbad', 'halfhead', 'trunc', 'refused', 's503u0', 's503u1', 's503u2']
-HD_FAIL = ['close', 'reset', 'stall', 'garbage', 's500', 's404', 'trunc', 'chunkbad', 'halfhead', 's503u0', 's503u1', 's503u2']
+HC_FAIL = ['close', 'reset', 'stall', 'garbage', 's500', 's404', 's403', 's204', 'chunkbad', 'halfhead', 'trunc', 'refused', 's503u0', 's503u1', 's503u2', 'hugelen63', 'hugelen64', 'hugelen40']
+HD_FAIL = ['close', 'reset', 'stall', 'garbage', 's500', 's404', 'trunc', 'chunkbad', 'halfhead', 's503u0', 's503u1', 's503u2', 'hugelen63', 'hugelen64', 'hugelen40']
 HE_FAIL = ['s500', 'close', 'reset', 'garbage', 's503u1']
 
 
@@ -649,7 +661,14 @@ def json_text_stream(a, tier, rnd, ctx, work, model_ok):
         if model_ok and nm in mm and nm in ii and mm[nm] != ii[nm]:
             a['divergences'].append(('jsontext_' + nm, 0, 'model reads the body as: ' + mm[nm][:200], 'library reads it as: ' + ii[nm][:200], ['jsonbody %s %s' % (nm, b.hex() or 'e')], []))
     a['evaluations'] += len(bodies)
-    a['dist'] = dict(a.get('dist', {}), json_text_bodies=len(bodies), json_text_accepted_by_the_library=acc)
+    # the extracted reader against the kernel's own evaluation of resp_of_body on a sample of these bodies
+    nxc = 0
+    if model_ok:
+        xs = [('resp', nm, b) for nm, b in bodies if len(b) <= 1500]
+        rnd.shuffle(xs)
+        nxc, xcp = coq_crosscheck('C06', xs, limit=150 if tier == 'quick' else 1500)
+        a['extras'] += xcp
+    a['dist'] = dict(a.get('dist', {}), json_text_bodies=len(bodies), json_text_accepted_by_the_library=acc, extraction_equations_checked_in_the_kernel=nxc)
 
 
 def run_C06(pid, tier, seed, model_ok=True):
@@ -732,7 +751,10 @@ def build_C07(ctx, tier, rnd):
         'flipped': b64.b64encode(bytes([rawsig[0] ^ 1]) + rawsig[1:]).decode(),
     }
     ctx.sigs.append((KEY2, h2, variants['otherkey']))
-    keys = {'k1': KEY1, 'kbad': 'not-base64-key!!', 'kjunk': b64.b64encode(b'this is not a DER key').decode(), 'k2': KEY2}
+    keys = {'k1': KEY1, 'kbad': 'not-base64-key!!', 'kjunk': b64.b64encode(b'this is not a DER key').decode(), 'k2': KEY2,
+            # a key entry that is present but unusable is still a key: it rejects every patch, it does not switch verification off
+            'kempty': '', 'kspace': '   ', 'karmor': '-----BEGIN PUBLIC KEY----- -----END PUBLIC KEY-----',
+            'kpem': '-----BEGIN PUBLIC KEY----- ' + KEY1 + ' -----END PUBLIC KEY-----', 'knl': KEY1[:40] + '\n' + KEY1[40:]}
     for kn, key in keys.items():
         al = gen.Alphabet(ctx, key=key)
         for vn, sg in variants.items():
@@ -746,6 +768,11 @@ def build_C07(ctx, tier, rnd):
                     ops = [al.init] + al.seq(PFX[pk]) + [op_update(ctx, 2, signed=True)] + al.seq([dm]) + al.seq(cont) + ['op nextpath']
                     hs.append(('c07t_%s_%d' % (kn, len(hs)), ops))
     al = gen.Alphabet(ctx, key=KEY1)
+    # the digest spelled in upper case by the server (the signature is over the file's own, lower-case, digest): installs, stays
+    # selected and boots like any other
+    for i, seq in enumerate((('uU2', 'q', 'p', 's', 'c', 'ok', 'R', 'q'), ('u1', 's', 'ok', 'uU2', 'q', 'R', 'q', 's', 'ok', 'c'), ('uU1', 'R', 'q', 'uU1', 'q', 'u2', 'q'),
+                             ('u1', 's', 'ok', 'u2', 'uU1', 'u3', 's', 'fail', 'q'))):
+        hs.append(('c07U%d' % i, [al.init] + al.seq(seq)))
     hs += double_damage(al, 'c07dd')
     labels = ['q', 'p', 's', 'ok', 'fail', 'R', 'u1', 'u2', 'u3', 'uns2', 'dS1', 'dS2', 'dT2', 'rb1', 'c']
     hs += gen.random_walks(al, labels, [2] * len(labels), 100 if tier == 'quick' else 3000, (6, 25), rnd, name='c07r')
@@ -806,7 +833,7 @@ def trig_init2(o, pre, st):
 
 def build_C20(ctx, tier, rnd):
     hs = []
-    strs = ['stable', 'beta', 'Ünï-çødé ✓', 'a b', 'x' * 40, '1.2.3+4', 'chan/with:odd#chars', '日本語']
+    strs = ['stable', 'beta', 'Ünï-çødé ✓', 'a b', 'x' * 40, '1.2.3+4', 'chan/with:odd#chars', '日本語', '', ' ', '\t']     # (blank is a channel name like any other)
     n = 40 if tier == 'quick' else 600
     for i in range(n):
         ychan = rnd.choice([None, None] + strs)
@@ -864,7 +891,16 @@ def build_life(ctx, tier, rnd, labels=None, extra_pfx=(), depth=None, walks=None
     pf = [PFX[k] for k in ('empty', 'good1', 'good1pend2', 'good1boot2', 'good2pend1', 'boot2pend3', 'good1boot2pend3')] + list(extra_pfx)
     for pre in pf:
         hs += gen.exhaustive_exact(al, labels, depth, prefixes=(pre,), name='L%d_' % len(hs), suffix=('q', 'c'))
-    wl = labels + ['p', 'c', 'q', 'u1b', 'rb12', 'rb221', 'u3rb2', 'u2rb2', 'crb2', 'crb1', 'udl2', 'uh3', 'i2', 'dJ']
+    wl = labels + ['p', 'c', 'q', 'u1b', 'rb12', 'rb221', 'u3rb2', 'u2rb2', 'crb2', 'crb1', 'udl2', 'uh3', 'i2', 'dJ', 'uU1', 'uU2']
+    # a number that is re-offered under another spelling of the same metadata (upper-case digest) while it is the last good,
+    # the pending or the booting patch, followed by a third install, a failure, a restart: records of one number that are
+    # not equal as text
+    for i, seq in enumerate((('u1', 's', 'ok', 'u2', 'uU1', 'u3', 's', 'fail', 'q', 'p'), ('u1', 's', 'ok', 'u2', 'uU1', 'u3', 'R', 's', 'R', 'q'),
+                             ('u1', 's', 'ok', 'uU1', 'u2', 's', 'fail', 'q'), ('uU1', 's', 'ok', 'u2', 'u1', 'u3', 's', 'fail', 'q'),
+                             ('u1', 's', 'uU1', 'ok', 'R', 'q', 'u2', 's', 'fail', 'q'), ('u1', 's', 'ok', 'u2', 's', 'uU2', 'ok', 'R', 'q', 'c'),
+                             ('uU2', 'u2', 'q', 'R', 'q', 's', 'ok', 'q', 'c'), ('u1', 's', 'ok', 'u2', 'uU2', 'q', 'R', 's', 'ok', 'c'),
+                             ('u1', 's', 'ok', 'u2', 'uU1', 'rb1', 'q'), ('u2', 's', 'ok', 'u1', 'uU2', 'u3', 's', 'fail', 'q', 'R', 'q'))):
+        hs.append(('Lsp%d' % i, [al.init] + al.seq(seq)))
     walks_ = gen.random_walks(al, wl, [1] * len(wl), walks or (150 if tier == 'quick' else 4000), (10, 40), rnd, name='Lr')
     hs += walks_
     # the same walks with the patches numbered 9, 10, 100 (and 5 -> 1000): numeric order kept, the order of the decimal
@@ -881,6 +917,16 @@ def build_C09(ctx, tier, rnd):
     wl = ['q', 'q', 'q', 'p', 'c', 's', 'ok', 'fail', 'u1', 'u2', 'u3', 'u1b', 'rb1', 'rb2', 'rb12', 'ck2', 'upnone', 'uperr', 'udl2']
     longs = [('long%d' % i, o_) for i, (_, o_) in enumerate(gen.random_walks(al, wl, [1] * len(wl), 3 if tier == 'quick' else 40, (400, 600), rnd, name='long'))]
     hs += longs + [(n_ + 'rn', renumber(o_)) for n_, o_ in longs[-1:]]     # (short names: the name becomes a directory)
+    # the same promise for an app built with a signing key (every read of the selection re-validates it against the recorded
+    # metadata and the signature): correctly signed installs, also with the digest spelled in upper case by the server
+    alk = gen.Alphabet(ctx, key=KEY1)
+    for i, seq in enumerate((('u2', 'q', 'p', 'R', 'q', 's', 'c', 'ok', 'q'), ('uU2', 'q', 'p', 'R', 'q', 's', 'c', 'ok', 'R', 'q'),
+                             ('u1', 's', 'ok', 'uU2', 'q', 'ck2', 'q', 'rb5', 'q', 'upnone', 'q', 'uperr', 'q', 'R', 'q', 's', 'ok', 'q'),
+                             ('uU1', 'q', 'upnone', 'q', 'udl3', 'q', 'R', 'q'), ('u1', 's', 'ok', 'u2', 'uU1', 'q', 'R', 'q', 'u3', 'q'),
+                             ('u1', 'u2', 'q', 'u1b', 'q', 'R', 'q'))):
+        hs.append(('c09k%d' % i, [alk.init] + alk.seq(seq)))
+    hs += gen.random_walks(alk, ['q', 'p', 's', 'ok', 'fail', 'R', 'u1', 'u2', 'u3', 'uU1', 'uU2', 'rb1', 'rb5', 'ck2', 'upnone', 'uperr'], [1] * 16,
+                           30 if tier == 'quick' else 800, (8, 30), rnd, name='c09kr')
     return hs
 
 
@@ -1624,6 +1670,15 @@ def run_C12(pid, tier, seed, model_ok=True):
                 t0 = ['op startupd %s err' % r_none, 'op waitbgnet', 'op startupd %s err' % r_none] + mid + ['op startupd %s err' % r_none, 'op nextnum']
                 ops = [al.init] + al.seq(PFX[pk]) + ['stall bg'] + ['t0 ' + x for x in t0] + ['t1 op nextnum', 'order ' + ','.join(['0'] * 12 + ['1'] * 4 + ['0'] * 12), 'stall off', 'op nextnum', 'op curnum']
                 stall_bg.append(('SB_%s_%s' % (pk, mid[0].split()[1]), ops))
+        # the EVENTS endpoint hangs: every event report stays in the network while the same process goes on installing, booting
+        # and installing again (three and more reports in flight); every call must still return
+        for pk in ('empty', 'good1'):
+            for tail in (['op nextnum'], [op_update(ctx, 1) if pk == 'empty' else op_update(ctx, 2), 'op nextnum', 'op curnum']):
+                first, second, third = (1, 2, 3) if pk == 'empty' else (2, 3, 1)
+                t0 = [op_update(ctx, first), 'op start', 'op success', op_update(ctx, second), 'op nextnum', 'op kill', al.init, 'op start', 'op success', op_update(ctx, third), 'op nextnum'] + tail
+                t0 = [x for x in t0 if x != 'op kill' and x != al.init]     # (one process: no restart inside the scheduled block)
+                ops = [al.init] + al.seq(PFX[pk]) + ['stall ev'] + ['t0 ' + x for x in t0] + ['t1 op nextnum', 'order ' + ','.join(['0'] * 60 + ['1'] * 4 + ['0'] * 60), 'stall off', 'op nextnum', 'op curnum']
+                stall_bg.append(('SE_%s_%d' % (pk, len(tail)), ops))
         _, impl_bg, ex_bg = run_both(header, stall_bg, work + 'bg', impl_only=True, lockcheck=True)
         ex_bg, lf_bg = unlocked_writes(ex_bg, dict(stall_bg), header)
         lock_fails += lf_bg
@@ -1632,7 +1687,10 @@ def run_C12(pid, tier, seed, model_ok=True):
             if tr is None or len(tr) != len([o for o in ops if o.startswith('op ')]) + 1:
                 lock_fails.append((name, len(ops) - 1, 'C12: the calls made while the update thread was stuck did not all return (%s results)' % (len(tr) if tr else 0), ops, header))
         for x in ex_bg:
-            if 'DEPTH-VIOLATION' in x or 'did not complete' in x:
+            if 'events endpoint hung' in x:
+                se = next(h for h in stall_bg if h[0].startswith('SE_'))
+                lock_fails.append((se[0], len(se[1]) - 1, 'C12: ' + x + ' (installs, launch reports and queries of one process while every event report hangs in the network: a call waited for the network)', se[1], header))
+            elif 'DEPTH-VIOLATION' in x or 'did not complete' in x:
                 lock_fails.append((stall_bg[0][0], len(stall_bg[0][1]) - 1, 'C12: ' + x + ' (start_update_thread / queries issued while the automatic update hangs in its patch check)', stall_bg[0][1], header))
             elif 'PANIC' in x or 'CRASH' in x:
                 lock_fails.append((stall_bg[0][0], len(stall_bg[0][1]) - 1, 'C12: ' + x[:300], stall_bg[0][1], header))
@@ -1935,6 +1993,14 @@ def run_C13(pid, tier, seed, model_ok=True):
         header = ctx.header()
         model, impl, extras = run_both(header, hs_both, work, impl_only=not model_ok)
         _, impl2, extras2 = run_both(header, hs_impl, work + 'b', impl_only=True)
+        # the extracted readers against the kernel's own evaluation of the same Gallina terms, on the texts of this run
+        nxc, xcp = (0, [])
+        if model_ok:
+            xs = [('pj', 'pjt%d' % i, t) for i, t in enumerate(texts)] + [('sj', 'sjt%d' % i, t) for i, t in enumerate(stexts)]
+            xs = [x for x in xs if len(x[2]) <= 1500]
+            rnd.shuffle(xs)
+            nxc, xcp = coq_crosscheck('C13', xs, limit=150 if tier == 'quick' else 1500)
+        extras += xcp
         opsof = dict(hs_both + hs_impl)
         divs, fails = [], []
         if model_ok:
@@ -1969,7 +2035,7 @@ def run_C13(pid, tier, seed, model_ok=True):
         samples = [{'history': hs_impl[0][0], 'ops': [o[:100] for o in hs_impl[0][1][:8]]}, {'history': hs_both[0][0], 'ops': [o[:100] for o in hs_both[0][1][:6]]}]
         return dict(evaluations=evals, distinct=len(distinct), samples=samples, divergences=divs, monitor_fail=fails,
                     rule='malformed state.json / patches_state.json (typed mutants, truncation, byte noise, huge values), files where directories are expected and vice versa, malformed YAML, extreme patch numbers / hashes / downloads, unconformant random call orders incl. calls before init; a panic hook on every thread + process exit status; every output checked against its documented domain; non-trivial = distinct (call, output, state-file kind)',
-                    dist={'malformed_histories': len(hs_impl), 'model_compared_histories': len(hs_both), 'state_json_texts_compared': len(stexts), 'patches_state_json_texts_compared': len(texts),
+                    dist={'malformed_histories': len(hs_impl), 'model_compared_histories': len(hs_both), 'state_json_texts_compared': len(stexts), 'extraction_equations_checked_in_the_kernel': nxc, 'patches_state_json_texts_compared': len(texts),
                           'histories_the_model_cannot_represent_(foreign platform in a stored event)': len(set(UNREP_SKIPPED))}, extras=extras, traces=len(impl) + len(impl2))
     finally:
         ctx.cleanup()
